@@ -303,9 +303,14 @@ func runC08(c *core.Ctx) error {
 			return err
 		}
 		c.AddTLC("SchemaModelExtra.cfg", res)
+		famSize := map[string]int{}
+		for _, cs := range extra {
+			famSize[cs.Skel]++
+		}
 		for i, cs := range extra {
-			// "unknown" verdicts (the `or` vocabulary family) are converted whenever the library accepts them
-			if cs.Expect == "reject" || (i+int(c.Seed))%c.Pick(6, 1) != 0 {
+			// "unknown" verdicts (the vocabulary families) are converted whenever the library accepts them;
+			// small families are taken whole, the large ones stride-sampled in the quick tier
+			if cs.Expect == "reject" || (famSize[cs.Skel] > 300 && (i+int(c.Seed))%c.Pick(6, 1) != 0) {
 				continue
 			}
 			types := map[string]string{}
